@@ -68,38 +68,142 @@ def fixij_obligations(R):
     discharge(R, 'reading.fixij', 'fixij', explore(run))
 
 
+class _DSet(SArr):
+    """h5py dataset: a symbolic 3-D array (z, y, x) plus its Carpet attributes"""
+
+    def __init__(self, name, dims, ghosts, iorigin):
+        f, F = base_array(name, tuple(dims))
+        SArr.__init__(self, f.shape, f.fn, name)
+        self.F, self.dims, self.ghosts, self.iorigin = F, dims, ghosts, iorigin
+        self.attrs = {'cctk_nghostzones': [Z(ghosts['x']), Z(ghosts['y']), Z(ghosts['z'])], 'iorigin': np.array(iorigin), 'time': 1.5}
+
+
+class _H5:
+    def __init__(self, files):
+        self.files = files
+
+    def File(self, path, mode='r'):
+        outer = self
+
+        class F:
+            def __enter__(s):
+                return s
+
+            def __exit__(s, *a):
+                return False
+
+            def keys(s):
+                return list(outer.files[path].keys())
+
+            def __getitem__(s, k):
+                return outer.files[path][k]
+
+            def __contains__(s, k):
+                return k in outer.files[path]
+        if path not in self.files:
+            raise FileNotFoundError(path)
+        return F()
+
+
 def ghost_trim_obligations(R):
+    """read_ET_group_or_var / read_ET_checkpoints: the REAL functions run on an h5py model whose datasets are symbolic
+    arrays of symbolic size with symbolic ghost widths (>= 1); join_chunks and fixij are replaced by recording stubs
+    (their own contracts are separate obligations).  ensures: what is handed to join_chunks for each variable is
+    {iorigin of the chunk: dataset[gz:nz-gz, gy:ny-gy, gx:nx-gx]} with exactly the chunks of the requested iteration,
+    level (and time level 0); the time attribute is collected once per iteration.  No pattern is matched on the source."""
     import aurel.reading as Rm
     for fname in ('read_ET_group_or_var', 'read_ET_checkpoints'):
-        func = getattr(Rm, fname)
-        R.under_contract(func)
-        tree = ast.parse(textwrap.dedent(inspect.getsource(func)))
-        stmts = [n for n in ast.walk(tree) if isinstance(n, ast.Assign) and isinstance(n.value, ast.Subscript)
-                 and isinstance(n.value.value, ast.Name) and n.value.value.id == 'var_array'
-                 and isinstance(n.targets[0], ast.Name) and n.targets[0].id == 'var_array']
-        if len(stmts) != 1:
-            R.ob(f'reading.{fname}:ghost-trimming statement found', fname, 'undecided', 'ast', 0.0,
-                 f'{len(stmts)} statements of the form var_array = var_array[...]')
-            continue
-        node = stmts[0].value
-        code = compile(ast.Expression(body=node), f'<{fname}:ghost-trim>', 'eval')
+        R.under_contract(getattr(Rm, fname))
+        for chunked in (False, True):
+            def run(fname=fname, chunked=chunked):
+                c = SX.ctx()
+                dsets, decoys = {}, {}
+                nch = 2 if chunked else 1
+                for ci in range(nch):
+                    dims = [c.new_int(f'n{a}{ci}') for a in 'zyx']
+                    gs = {a: c.new_int(f'ghost_{a}{ci}') for a in 'xyz'}
+                    for a, d in zip('zyx', dims):
+                        c.assume(gs[a] >= 1)
+                        c.assume(d >= 2 * gs[a] + 1)
+                    suffix = f' c={ci}' if chunked else ''
+                    dsets[f'ADMBASE::alp it=8 tl=0 rl=1{suffix}'] = _DSet(f'F{ci}', dims, gs, (0, 0, 7 * ci))
+                    # decoys: other iteration, other level, other time level, other variable
+                    for key in (f'ADMBASE::alp it=16 tl=0 rl=1{suffix}', f'ADMBASE::alp it=8 tl=0 rl=0{suffix}', f'ADMBASE::betax it=8 tl=0 rl=1{suffix}'):
+                        decoys[key] = _DSet('decoy', dims, gs, (0, 0, 7 * ci))
+                    if fname == 'read_ET_checkpoints':
+                        decoys[f'ADMBASE::alp it=8 tl=1 rl=1{suffix}'] = _DSet('decoy', dims, gs, (0, 0, 7 * ci))
+                content = {'Parameters and Global Attributes': None, **decoys, **dsets}
+                captured = []
+                if fname == 'read_ET_group_or_var':
+                    path = '/s/run/output-0000/run/alp.h5'
+                else:
+                    path = '/s/run/output-0000/run/checkpoint.chkpt.it_8.h5'
+                mod = RebMod(Rm, {'np': SX.ShimNPz(), 'h5py': _H5({path: content}), 'print': lambda *a, **k: None})
 
-        def run():
-            c = SX.ctx()
-            dims = [z3.Int(n) for n in ('nz', 'ny', 'nx')]
-            gs = {a: z3.Int('ghost_' + a) for a in 'xyz'}
-            for a, d in zip('zyx', dims):
-                c.assume(gs[a] >= 1)
-                c.assume(d >= 2 * gs[a] + 1)
-            f, F = base_array('F', tuple(dims))
-            out = eval(code, {}, {'var_array': f, 'ghost_x': Z(gs['x']), 'ghost_y': Z(gs['y']), 'ghost_z': Z(gs['z'])})
-            c.require('result has shape (nz-2gz, ny-2gy, nx-2gx)',
-                      z3.And(*[to_z3(s) == d - 2 * gs[a] for s, d, a in zip(out.shape, dims, 'zyx')]))
-            I = [c.new_int(n) for n in 'kji']
-            for i, s in zip(I, out.shape):
-                c.assume(z3.And(i >= 0, i < to_z3(s)))
-            c.require('out[k,j,i] == in[k+gz, j+gy, i+gx]', to_z3(out.at(tuple(I)), real=True) == F(I[0] + gs['z'], I[1] + gs['y'], I[2] + gs['x']))
-        discharge(R, f'reading.{fname}[ghost trimming `{ast.unparse(node)[:60]}`]', fname, explore(run))
+                class _OSP:
+                    sep = '/'
+
+                    def exists(self, p):
+                        return p == path
+
+                    def basename(self, p):
+                        return p.rsplit('/', 1)[-1]
+
+                    def __getattr__(self, n):
+                        import os
+                        return getattr(os.path, n)
+
+                class _OS:
+                    path = _OSP()
+
+                    def __getattr__(self, n):
+                        import os
+                        return getattr(os, n)
+
+                class _Glob:
+                    def glob(self, pat):
+                        return [path]
+                mod._g.update(os=_OS(), glob=_Glob())
+
+                def join_stub(chunks, **kw):
+                    captured.append(chunks)
+                    return ('joined', len(captured) - 1)
+                mod._g['join_chunks'] = join_stub
+                mod._g['fixij'] = lambda x: ('fixed', x)
+                if fname == 'read_ET_group_or_var':
+                    out = mod.read_ET_group_or_var(['alp'], [path], 'in file', it=[8], rl=1)
+                else:
+                    out = mod.read_ET_checkpoints({'simpath': '/s/', 'simname': 'run'}, ['alpha'], it=[8], rl=1, restart=0, verbose=False)
+                c.require('join_chunks is called once, for the requested variable', z3.BoolVal(len(captured) == 1))
+                if len(captured) != 1:
+                    return
+                chunks = captured[0]
+                want = {tuple(int(x) for x in d.iorigin): d for d in dsets.values()}
+                c.require('the chunks handed over are exactly those of (variable, iteration, level[, tl=0]), keyed by their iorigin',
+                          z3.BoolVal(set(tuple(int(x) for x in k) for k in chunks) == set(want)))
+                for k, arr in chunks.items():
+                    d = want.get(tuple(int(x) for x in k))
+                    if d is None or not isinstance(arr, SArr):
+                        c.require('every chunk is an array of the file', z3.BoolVal(False))
+                        continue
+                    g = d.ghosts
+                    c.require('chunk has shape (nz-2gz, ny-2gy, nx-2gx)',
+                              z3.And(len(arr.shape) == 3, *[to_z3(s_) == dd - 2 * g[a] for s_, dd, a in zip(arr.shape, d.dims, 'zyx')]))
+                    if len(arr.shape) != 3:
+                        continue
+                    I = [c.new_int(n) for n in 'kji']
+                    for i, dd, a in zip(I, d.dims, 'zyx'):
+                        c.assume(z3.And(i >= 0, i < dd - 2 * g[a]))
+                    c.require('chunk[k,j,i] == dataset[k+gz, j+gy, i+gx]', to_z3(arr.at(tuple(I)), real=True) == d.F(I[0] + g['z'], I[1] + g['y'], I[2] + g['x']))
+                tcol = out.get('t')
+                c.require('one time value per iteration, the time attribute of the data', z3.BoolVal(list(tcol) == [1.5]))
+                c.require('the joined, index-fixed array is returned under the aurel name', z3.BoolVal(out.get('alpha') == [('fixed', ('joined', 0))]))
+            try:
+                paths = explore(run)
+            except SX.PathAbort as e:
+                R.ob(f'reading.{fname}[ghost trimming, {"2 chunks" if chunked else "no chunks"}]:paths', fname, 'undecided', 'z3', 0.0, str(e))
+                continue
+            discharge(R, f'reading.{fname}[ghost trimming, {"2 chunks" if chunked else "no chunks"}]', fname, paths)
     R.trust('requires ghost width >= 1 on every axis (Carpet writes the ghost zones it reports); a width of 0 would make a[0:-0] empty')
 
 
@@ -274,6 +378,8 @@ def directory_cases(tier):
             ghost = 1 + (li + ci) % 3
             rev = (ci % 2 == 1)
             cases.append(dict(layout=layout, cuts=cuts, ghost=ghost, reverse=rev))
+        # a re-run from the same checkpoint that stopped early: restart ranges do not end in increasing order
+        cases.append(dict(layout=layout, cuts=(2, 1, 1), ghost=1 + li % 2, reverse=False, nonmono=True))
     return cases
 
 
@@ -286,11 +392,16 @@ def run_directory_case(case, seed=0):
         nchunks = len(list(itertools.product(*[etgen.splits(n, c) for n, c in zip((6, 5, 4), case['cuts'])])))
         order = list(reversed(range(nchunks))) if case['reverse'] else None
         restarts = [(0, [0, 2, 4], 0), (1, [4, 6], 1), (2, [6, 8], 2)]
+        latest = {0: 0, 2: 0, 4: 1, 6: 2, 8: 2}
+        requests = (([8, 0, 4], ['alpha', 'betaup3'], 0), ([6, 2], ['betax', 'rho0'], 1), ([4], ['gxx'], 0))
+        if case.get('nonmono'):
+            restarts = [(0, [0, 2, 4, 6, 8], 0), (1, [4, 6, 8, 10, 12], 1), (2, [4, 6, 8], 2)]
+            latest = {0: 0, 2: 0, 4: 2, 6: 2, 8: 2, 10: 1, 12: 1}
+            requests = (([6, 12], ['alpha'], 0), ([4, 6, 10], ['betax', 'rho0'], 1), ([12, 0, 8, 2], ['betaup3'], 0), ([6], ['gxx'], 0))
         truth = etgen.make_sim(root, 'sim', case['layout'], restarts=restarts, shape=(6, 5, 4), cuts=case['cuts'], ghost=case['ghost'],
                                rls=(0, 1), variables=('alp', 'betax', 'betay', 'betaz', 'gxx', 'gxy', 'gxz', 'gyy', 'gyz', 'gzz', 'rho'), chunk_order=order)
         p = etgen.param_for(root, 'sim')
-        latest = {0: 0, 2: 0, 4: 1, 6: 2, 8: 2}
-        for its, vars_, rl in (([8, 0, 4], ['alpha', 'betaup3'], 0), ([6, 2], ['betax', 'rho0'], 1), ([4], ['gxx'], 0)):
+        for its, vars_, rl in requests:
             d = aurel.read_data(p, it=list(its), vars=list(vars_), rl=rl, split_per_it=False, verbose=False, skip_last=False)
             if [int(i) for i in d['it']] != sorted(its):
                 bad.append(f'{case}: it column {list(d["it"])} for request {its}')
@@ -337,8 +448,11 @@ def directory_obligations(R, tier):
 
 def native_dir_replay(o=None):
     bad = []
-    for case in directory_cases('quick')[:8]:
+    cases = directory_cases('quick')
+    for case in [c for c in cases if c.get('nonmono')] + cases[:8]:
         bad += run_directory_case(case)
+        if bad:
+            break
     return bool(bad), ('; '.join(bad[:4]) if bad else 'the first 8 generated directories read back exactly')
 
 
